@@ -178,7 +178,11 @@ def _bad_args(case, op, last_good):
     if why == 'traces_nonfinite':
         tt = t.astype('float32' if t.dtype.kind != 'f' else t.dtype)
         tt[0, 0] = np.nan      # (NaN, not inf: the final statistic at that sample is NaN whichever accumulation kernel handled the batch)
-        return tt, d
+        # ... provided the trace belongs to a DECLARED class (value 0 always is): for a trace of an undeclared class one accumulation kernel ignores the
+        # NaN and the other spreads it (0 x NaN in its mask product), a kernel-dependent difference of the unchanged code outside the numeric regimes
+        d2 = d.copy()
+        d2[0, ...] = 0
+        return tt, d2
     if why == 'traces_float16':
         return t.astype('float16'), d               # the compiled kernels have no half-precision version: refused inside the kernel call
     if why == 'traces_complex':
